@@ -98,7 +98,11 @@ StrayKinds == IF StrayLevel >= 2 THEN ReplyKinds \ {"JUNK"} ELSE {"OKA", "NO"}
 StrayReplies(i) ==
     IF StrayLevel = 0 THEN {}
     ELSE LET cur == IF Live(i) THEN {Routing(i, req[i].serial)} ELSE {}
-             notAwaited == IF Live(i) THEN (SvcNameSet \cup {"zz.unknown"}) \ {slots[s].name : s \in req[i].ref} ELSE {}
+             \* not awaited: configured services that owe nothing, an unknown service, and unknown services whose names
+             \* extend the name of an awaited one (a name comparison that stops early would accept them)
+             notAwaited == IF Live(i) THEN ((SvcNameSet \cup {"zz.unknown"}) \ {slots[s].name : s \in req[i].ref})
+                                           \cup {slots[s].name \o "2" : s \in req[i].ref}
+                           ELSE {}
              badtags == {t[1] : t \in oldtags[i]} \cup {Hex(i), Hex(i) \o "_1x", "_", "zz_1"}
          IN UNION { ReplyEvs(s, t, k, i, 1) : s \in notAwaited, t \in cur, k \in StrayKinds }
             \cup UNION { ReplyEvs(s, t, k, i, 1) : s \in SvcNameSet, t \in badtags, k \in StrayKinds }
